@@ -325,9 +325,10 @@ func (c *Conn) sortedMessageIDsLocked() []imap.MessageID {
 	return ids
 }
 
-// RemoteFlags restricts a flag set to what a connector reports in its updates: the system flags it keeps as labels.
-// \Deleted is a per-mailbox flag of the IMAP side (the repository's dummy connector never reports it either) and
-// keywords do not exist remotely.
+// RemoteFlags restricts a flag set to what a connector reports in spontaneous updates: the system flags it keeps as
+// labels. \Deleted is a per-mailbox flag of the IMAP side (the repository's dummy connector never reports it either)
+// and keywords do not exist remotely. (The Faithful echo policy, used by C06 only, restates the flags exactly as the
+// server handed them over: its model is built on that.)
 func RemoteFlags(flags imap.FlagSet) imap.FlagSet {
 	res := imap.NewFlagSet()
 
@@ -357,7 +358,7 @@ func (c *Conn) echoBoxesLocked(id imap.MessageID) {
 	}
 
 	if m, ok := c.Messages[id]; ok {
-		c.outbox = append(c.outbox, imap.NewMessageMailboxesUpdated(id, c.boxesLocked(m), RemoteFlags(m.Flags)))
+		c.outbox = append(c.outbox, imap.NewMessageMailboxesUpdated(id, c.boxesLocked(m), m.Flags.Clone()))
 	}
 }
 
@@ -439,7 +440,7 @@ func (c *Conn) mark(method string, messageIDs []imap.MessageID, flag string, on 
 			}
 
 			if c.Echo == Faithful {
-				c.outbox = append(c.outbox, imap.NewMessageFlagsUpdated(id, RemoteFlags(m.Flags)))
+				c.outbox = append(c.outbox, imap.NewMessageFlagsUpdated(id, m.Flags.Clone()))
 			}
 		}
 	}
